@@ -349,7 +349,14 @@ class Ex:
         m = re.match(r"^<static\(DefId\([^~]*~ \w+\[\w+\]::([\w:]+)\)\)>$", t)
         if m:
             return Ref(self.static_cell(m.group(1)))
-        if t.startswith('"') or t.startswith('b"'):
+        if t.startswith('"') and t.endswith('"'):
+            try:
+                raw = bytes(t[1:-1], "utf-8").decode("unicode_escape").encode("latin-1") if "\\" in t else t[1:-1].encode("utf-8")
+                cell = Cell(Agg([Sc(b, "u8") for b in raw], name="array"), "str const")
+                return Ref(cell, (), (0, len(raw)))
+            except Exception:  # noqa
+                return Opaque("str:" + t[:40])
+        if t.startswith('b"'):
             return Opaque("str:" + t[:40])
         if t == "RangeFull":
             return Agg([], name="RangeFull")
